@@ -262,3 +262,24 @@ def gain_case(p, res):
                 if abs(pn - want) > 1e-2 * want:
                     res.viol(ft, cfg, "noise-calibrated", f"drawn fading, signal only where the gain is {where}: noise power {pn:.6g}, expected faded-signal power / SNR = {want:.6g} (ratio {pn / want:.4f})")
     res.sample({"type": ft, "param": par, "blocks": N})
+
+
+# ----------------------------------------------------------------------------- spelling equivalence of the constructors behind this property
+# (positional / keyword / mixed spellings of one legal call configure the same object; shared helper kmc/spelling.py)
+_cases0, _execute0, _component0 = cases, execute, component_of
+
+
+def cases(tier, seed):  # noqa: F811
+    yield from _cases0(tier, seed)
+    yield f"{PID}|spelling", {"kind": "spelling", "tier": tier}
+
+
+def execute(p, res):  # noqa: F811
+    if p.get("kind") == "spelling":
+        from kmc import spelling
+        return spelling.run(PID, res)
+    return _execute0(p, res)
+
+
+def component_of(p):  # noqa: F811
+    return "spelling" if p.get("kind") == "spelling" else _component0(p)
